@@ -6,7 +6,8 @@ A `Value` is a `ValueType` tag plus the **bit pattern** of the Rust payload as a
 
 * `generic` — the `u64` payload exactly as stored (`< 2^64`, *not* necessarily masked to the
   address size: `neg`, `not`, `div`, `shl`, `shra`, `abs` leave high bits set in the Rust code and so
-  do they here; C07 `value_refines` shows this is harmless modulo the address size);
+  do they here; every operation masks its operands itself and C07 `value_refines` shows the
+  garbage is harmless modulo the address size);
 * `i8 … u64` — the two's complement pattern, `< 2^width`;
 * `f32`/`f64` — the IEEE-754 bit pattern (`to_bits`). Float *arithmetic* is executed with Lean's
   `Float32`/`Float` (opaque to the kernel; theorems never look inside it).
@@ -297,17 +298,18 @@ def xor (a b : Value) (mask : Nat) : Out Value := bitwise (· ^^^ ·) a b mask
 
 /-! ## shifts -/
 
-/-- `Value::shift_length` -/
-def shiftLength (v : Value) : Out Nat :=
+/-- `Value::shift_length(self, addr_mask)`: a generic count is masked to the address size
+(the `fix:` for finding C07-1) -/
+def shiftLength (v : Value) (mask : Nat) : Out Nat :=
   match v.ty.kind with
-  | .generic => .ok v.bits
+  | .generic => .ok (v.bits &&& mask)
   | .uint => .ok v.bits
   | .sint => if 0 ≤ sval v.ty.width v.bits then .ok v.bits else .err .rInvalidShiftExpression
   | .float => .err .rInvalidShiftExpression
 
 /-- `Value::shl` -/
 def shl (a b : Value) (mask : Nat) : Out Value := do
-  let v2 ← b.shiftLength
+  let v2 ← b.shiftLength mask
   match a.ty.kind with
   | .generic =>
     pure ⟨.generic, if v2 ≥ maskBitSize mask then 0 else ((a.bits &&& mask) <<< v2) % 2 ^ 64⟩
@@ -317,7 +319,7 @@ def shl (a b : Value) (mask : Nat) : Out Value := do
 
 /-- `Value::shr` -/
 def shr (a b : Value) (mask : Nat) : Out Value := do
-  let v2 ← b.shiftLength
+  let v2 ← b.shiftLength mask
   match a.ty.kind with
   | .generic => pure ⟨.generic, if v2 ≥ maskBitSize mask then 0 else (a.bits &&& mask) >>> v2⟩
   | .uint => pure ⟨a.ty, if v2 ≥ a.ty.width then 0 else a.bits >>> v2⟩
@@ -326,7 +328,7 @@ def shr (a b : Value) (mask : Nat) : Out Value := do
 
 /-- `Value::shra` (`>>` on `iN` is the arithmetic shift = floor division by `2^v2`) -/
 def shra (a b : Value) (mask : Nat) : Out Value := do
-  let v2 ← b.shiftLength
+  let v2 ← b.shiftLength mask
   match a.ty.kind with
   | .generic =>
     let v1 := signExtend a.bits mask
